@@ -889,6 +889,20 @@ func (g *gen) specCall(e *env, n *ast.CallExpr, want string, c *Clause) T {
 		fn := "box." + sortID(v.Sort)
 		g.declare(fn, fmt.Sprintf("(declare-fun %s (%s) Iface)\n(declare-fun un%s (Iface) %s)", fn, v.Sort, fn, v.Sort))
 		return T{S: sx(fn, v.S), Sort: sIface}
+	case "iterfresh":
+		// iterfresh(p): the pointer p was allocated in the current iteration of the innermost loop around the
+		// current point (so it cannot be a pointer that an earlier iteration stored somewhere)
+		a := arg(0, sPtr)
+		var best *ssa.BasicBlock
+		for h, body := range g.ci.body {
+			if body[g.curBlock] && (best == nil || len(body) < len(g.ci.body[best])) {
+				best = h
+			}
+		}
+		if best == nil || g.loopNalloc[best] == "" {
+			return fail("iterfresh: not inside a loop")
+		}
+		return T{S: sx(">=", a.S, g.loopNalloc[best]), Sort: sBool}
 	case "called":
 		// called(callee, k): the k-th call of callee (source order) in this body was executed on the path
 		// to the current point
